@@ -755,10 +755,12 @@ func noteResolved(e *Env, d *coreDump, uid string) {
 	}
 	nb := int(e.App.BetKeeper.GetParams(e.Ctx).BatchSettlementCount)
 	no := int(e.App.OrderbookKeeper.GetParams(e.Ctx).BatchSettlementCount)
-	bound := (B+nb-1)/nb + (P+no-1)/no
-	if bound < 1 {
-		bound = 1
-	}
+	// the bound proved on the model for every reachable state (c05_settles_within): floor(B/nb) + floor(P/no) + 1
+	// successful end-blocks. (The tighter ceil(B/nb)+ceil(P/no) is false of the code as it is and was a false alarm
+	// of an earlier version of this monitor: a book without participations that waits behind books whose
+	// participations use up the block's budget exactly is only looked at in the next block,
+	// c05_ceil_bound_counterexample.)
+	bound := B/nb + P/no + 1
 	coreSeen.due[uid] = &settleDue{resolvedAtEB: coreSeen.ebCount, bound: bound}
 }
 
